@@ -977,6 +977,15 @@ fn derive_dot_expression(
                     let mut results = Vec::new();
                     for t in types {
                         match t {
+                            // A tuple candidate without any fields stands
+                            // for a tuple we know nothing about, the result of
+                            // an include for one. It may well have the field.
+                            Shape::Tuple(tshape) if tshape.val.is_empty() => {
+                                results.push(Shape::Narrowed(NarrowedShape {
+                                    pos: pi.pos.clone(),
+                                    types: NarrowingShape::Any,
+                                }));
+                            }
                             Shape::Tuple(tshape) => {
                                 for (field_name, field_shape) in tshape.val.iter() {
                                     if field_name.val == pi.val {
